@@ -151,6 +151,7 @@ def check_simulator() -> list[str]:
 
     for key, fn in (("pure", pure), ("pure2", pure2), ("counter", counter), ("clocky", clocky), ("crashy", crashy)):
         cat.add(W.Op(key, fn, (), key))
+    cat.pool_builders = {}
 
     real_stdout = sys.stdout
     sys.stdout = open(os.devnull, "w")
@@ -167,7 +168,7 @@ def check_simulator() -> list[str]:
                 state.update(n=0, flag=False)
                 sim = Simulator(plan, cat, seams, root, exclude, wall_cap=120)
                 results, evd = sim.run()
-                bad = sorted({k for _, _, k, st, dg in results if st != "crashed" and [st, dg] != reference[k]})
+                bad = sorted({k for _, _, k, st, dg, _x, _l in results if st != "crashed" and [st, dg] != reference[k]})
                 return bad, evd, sim.stats
 
             base = dict(p_line=0.02, p_fault=0.3, p_crash=0.0, faults=["clock_jump", "reseed", "gc", "churn"], max_crashes=0)
